@@ -1,4 +1,6 @@
 """C14 - a clean stop loses nothing (E1 on real persistence files, model_checking)."""
+import os
+
 from .. import alpha, e1check, explore
 from ..common import Violation, short
 from ..explore import NullMonitor
@@ -98,15 +100,140 @@ ASSUMPTIONS = [
 
 
 def run(tier):
+    from ..common import HarnessError, Report
+
     spec = C14Spec(tier)
-
-    def extra(cov, wit):
-        return {"evaluations": wit.get("stop_restart_forks", 0) + cov["transitions"], "distinct_nontrivial": wit.get("forks_with_nonempty_tree", 0)}
-
+    report = Report(PROP, "model_checking", tier)
     if tier == "quick":
-        return e1check.run_e1(spec, tier, depth=5, state_budget=300000, time_budget=150, rule=RULE, assumptions=ASSUMPTIONS, extra_cov=extra)
-    return e1check.run_e1(spec, tier, depth=6, state_budget=3000000, time_budget=1800, rule=RULE, assumptions=ASSUMPTIONS, extra_cov=extra)
+        explore.run(spec, report, tier, 5, 300000, 150)
+    else:
+        explore.run(spec, report, tier, 6, 3000000, 1800)
+    cov_sync = dict(report.coverage)
+    sub = Report(PROP, "model_checking", tier)
+    explore.run(C14AsyncSpec(), sub, tier, 4 if tier == "quick" else 5, 200000, 200 if tier == "quick" else 900)
+    report.add_all(sub.violations.values())
+    cov = report.coverage
+    cov.update(cov_sync)
+    wit = cov.get("witnesses", {})
+    cov["rule"] = RULE + "; the same fork is explored for the asyncio gateway on the virtual loop (stop() awaits the save in the fake executor)"
+    cov["asyncio_flavour"] = {"states": sub.coverage["states"], "transitions": sub.coverage["transitions"], "completed_depth": sub.coverage["completed_depth"], "witnesses": sub.coverage["witnesses"]}
+    cov["states"] = cov_sync["states"] + sub.coverage["states"]
+    cov["transitions"] = cov_sync["transitions"] + sub.coverage["transitions"]
+    cov["traces_validated_against_impl"] = cov["transitions"]
+    cov["evaluations"] = wit.get("stop_restart_forks", 0) + cov["transitions"] + sub.coverage["witnesses"].get("async_stop_restart_forks", 0)
+    cov["distinct_nontrivial"] = wit.get("forks_with_nonempty_tree", 0)
+    cov["caps_hit"] = cov_sync.get("caps_hit", []) + sub.coverage.get("caps_hit", [])
+    cov["exhaustive"] = not cov["caps_hit"]
+    report.assumptions = list(ASSUMPTIONS)
+    return report.finish()
 
 
 def replay(data):
+    cfg = data["replay"].get("cfg", {})
+    if cfg.get("flavour") == "async":
+        return e1check.replay_history(C14AsyncSpec(), data)
     return e1check.replay_history(C14Spec("thorough"), data)
+
+
+# -- asyncio flavour: the same fork on the virtual loop -----------------------------------------------
+
+
+class AsyncPersistWorld:
+    """AsyncSerialGateway with persistence on the virtual loop (start_persistence done), E1 world interface."""
+
+    def __init__(self, cfg):
+        from .c15 import AsyncRun
+
+        self.cfg = cfg
+        self.run = AsyncRun(cfg["persistence"])
+        self.gw = self.run.gw
+        self.dead = None
+
+    def apply(self, ev):
+        from ..world import Obs, exc_info
+
+        obs = Obs()
+        if self.dead is not None:
+            obs.exc, obs.where = self.dead, "dead"
+            return obs
+        try:
+            if ev[0] == "rx":
+                self.run.feed([ev[1]])
+            elif ev[0] == "tick":
+                err = self.run.tick(None)
+                if err not in (None, "no-timer", "no-save-started"):
+                    obs.exc = exc_info(err) if isinstance(err, BaseException) else {"type": "str", "text": str(err), "site": "?"}
+            elif ev[0] == "tickfail":
+                from ..fsfault import FaultFS
+
+                self.run.tick(FaultFS("fail", at_name=ev[1]))
+            elif ev[0] == "set":
+                self.run.loop.call(self.gw.set_child_value, ev[1], ev[2], ev[3], ev[4])
+                self.run.loop.run_ready()
+        except Exception as exc:  # pylint: disable=broad-except
+            obs.exc = exc_info(exc)
+            obs.where = "call"
+            self.dead = obs.exc
+        return obs
+
+    def tree(self):
+        from ..canon import project_tree
+
+        return project_tree(self.gw.sensors)
+
+    def stop_and_reload(self):
+        from .c15 import load_copy
+
+        err = self.run.stop()
+        return err, load_copy(self.run.dir, self.cfg["persistence"])
+
+    def key(self, extra=None):
+        import hashlib
+
+        from .. import canon
+
+        files = []
+        for name in sorted(os.listdir(self.run.dir)):
+            with open(os.path.join(self.run.dir, name), "rb") as fh:
+                files.append((name, canon.digest(fh.read()).hex()))
+        text = repr((canon.walk(self.gw.sensors), self.gw.tasks.persistence.need_save, tuple(files), len(self.run.loop.pending_timers()), repr(self.dead), extra))
+        return hashlib.blake2b(text.encode("utf-8", "surrogatepass"), digest_size=12).digest()
+
+    def snapshot(self):
+        return None
+
+    def close(self):
+        self.run.close()
+
+
+class C14AsyncSpec(explore.Spec):
+    prop = PROP
+    use_snapshots = False
+    has_at_state = True
+
+    def configs(self, tier):
+        return [{"version": "2.2", "persistence": fmt, "flavour": "async"} for fmt in ("json", "pickle")]
+
+    def make_world(self, cfg):
+        return AsyncPersistWorld(cfg)
+
+    def alphabet(self, cfg):
+        t = alpha.lines("2.2")
+        return [alpha.rx(t[n]) for n in ("PA", "CA0", "SA0", "BAT", "IDR", "PSA", "CFG")] + [("tick",), ("tickfail", "fsync"), ("set", 1, 0, 2, "0")]
+
+    def new_monitor(self, cfg):
+        return NullMonitor()
+
+    def at_state(self, world, monitor, hist, cfg):
+        if world.dead is not None:
+            return []
+        before = world.tree()
+        err, after = world.stop_and_reload()
+        monitor.stats["async_stop_restart_forks"] += 1
+        rep = {"kind": "history+probe", "check": PROP, "cfg": cfg, "history": list(hist)}
+        if err is not None:
+            return [Violation(PROP, f"exception|async-stop|{type(err).__name__}", f"asyncio stop() raised {type(err).__name__}: {short(str(err))}", rep)]
+        if before != after:
+            cls, text = diff_trees(before, after)
+            return [Violation(PROP, f"stop-loses-state|async|{cls}", f"asyncio gateway: after {short(list(hist), 300)} then stop() and a fresh load: {text}", rep)]
+        return []
